@@ -79,7 +79,8 @@ def run_shards(pid, tier, seed, specs, ctx, timeout):
         sf, of = os.path.join(tmp, f"s{i}.spec"), os.path.join(tmp, f"s{i}.out")
         with open(sf, "wb") as fh:
             pickle.dump(spec, fh)
-        cmd = [sys.executable, "-X", "dev", "-W", "ignore", "-m", "vf.main", "--worker", pid, tier, str(seed), sf, of]
+        # a shard may ask for extra interpreter flags (e.g. -O: the same workload with assert statements compiled away)
+        cmd = [sys.executable, "-X", "dev", "-W", "ignore", *spec.get("python_flags", []), "-m", "vf.main", "--worker", pid, tier, str(seed), sf, of]
         t0 = time.time()
         try:
             res = subprocess.run(cmd, timeout=timeout, capture_output=True, text=True)
